@@ -271,6 +271,34 @@ pub open spec fn last_sub_upto(cs: Seq<char>, lit: Seq<char>, upto: int) -> int 
 }
 pub open spec fn last_sub(cs: Seq<char>, lit: Seq<char>) -> int { last_sub_upto(cs, lit, cs.len() - lit.len()) }
 
+pub open spec fn count_c(cs: Seq<char>, c: char) -> nat decreases cs.len() {
+    if cs.len() == 0 { 0 } else { (if cs.last() == c { 1nat } else { 0nat }) + count_c(cs.drop_last(), c) }
+}
+pub open spec fn first_index_of(cs: Seq<char>, c: char) -> int decreases cs.len() {
+    if cs.len() == 0 { -1 } else if cs[0] == c { 0 } else { let r = first_index_of(cs.skip(1), c); if r < 0 { -1 } else { r + 1 } }
+}
+pub proof fn lemma_first_index_of(cs: Seq<char>, c: char)
+    ensures -1 <= first_index_of(cs, c) < cs.len(),
+        first_index_of(cs, c) >= 0 ==> cs[first_index_of(cs, c)] == c,
+        forall|i: int| 0 <= i < cs.len() && (first_index_of(cs, c) < 0 || i < first_index_of(cs, c)) ==> cs[i] != c,
+    decreases cs.len()
+{
+    if cs.len() > 0 && cs[0] != c {
+        lemma_first_index_of(cs.skip(1), c);
+        let t = cs.skip(1);
+        assert forall|i: int| 0 <= i < cs.len() && (first_index_of(cs, c) < 0 || i < first_index_of(cs, c)) implies cs[i] != c by {
+            if i > 0 { assert(cs[i] == t[i - 1]); }
+        }
+    }
+}
+
+/// str::split(',') : always at least one piece
+pub open spec fn split_commas(cs: Seq<char>) -> Seq<Seq<char>> decreases cs.len() {
+    let i = first_index_of(cs, ',');
+    if i < 0 || i >= cs.len() { seq![cs] } else { seq![cs.take(i)] + split_commas(cs.skip(i + 1)) }
+}
+
+
 // shim D6.rsplit_once_char: X.rsplit_once('c')
 #[verifier::external_body]
 fn shim_rsplit_once_char<'a>(s: &'a str, c: char) -> (r: Option<(&'a str, &'a str)>)
@@ -386,3 +414,39 @@ pub proof fn lemma_substr_view(s: &str, r: Seq<char>, i: int, j: int)
     encode_utf8_decode_utf8(r);
     encode_utf8_decode_utf8(m);
 }
+
+// shim D6.rfind_char / D6.find_char
+#[verifier::external_body]
+fn shim_rfind_char(s: &str, c: char) -> (r: Option<usize>)
+    ensures (match r { Some(i) => last_index_of(s@, c) >= 0 && i == boff(s@, last_index_of(s@, c)), None => last_index_of(s@, c) < 0 })
+{ s.rfind(c) }
+#[verifier::external_body]
+fn shim_find_char(s: &str, c: char) -> (r: Option<usize>)
+    ensures (match r { Some(i) => first_index_of(s@, c) >= 0 && i == boff(s@, first_index_of(s@, c)), None => first_index_of(s@, c) < 0 })
+{ s.find(c) }
+// shim D6.split_comma
+#[verifier::external_body]
+fn shim_split_comma<'a>(s: &'a str) -> (r: Vec<&'a str>)
+    ensures r@.len() == split_commas(s@).len(), forall|i: int| 0 <= i < r@.len() ==> (#[trigger] r@[i])@ == split_commas(s@)[i]
+{ s.split(',').collect() }
+// shim D8.format3
+#[verifier::external_body]
+fn shim_concat3(a: &str, b: &str, c: &str) -> (r: String)
+    ensures r@ == a@ + b@ + c@
+{ format!("{}{}{}", a, b, c) }
+/// byte-wise lexicographic order
+pub open spec fn lex_lt(a: Seq<u8>, b: Seq<u8>) -> bool decreases a.len() {
+    if b.len() == 0 { false } else if a.len() == 0 { true }
+    else if a[0] != b[0] { a[0] < b[0] } else { lex_lt(a.skip(1), b.skip(1)) }
+}
+// shim D6.str_lt
+#[verifier::external_body]
+fn shim_str_lt(a: &str, b: &str) -> (r: bool)
+    ensures r == lex_lt(a.spec_bytes(), b.spec_bytes())
+{ a < b }
+
+// shim D6.eq_self_field_str: self.field == b  (field: String, b: &str)
+#[verifier::external_body]
+fn shim_string_eq_str(a: &String, b: &str) -> (r: bool)
+    ensures r == (a@ == b@)
+{ a == b }
